@@ -20,10 +20,11 @@
 #define ARCH_SET_CPUID 0x1012
 #endif
 
-enum { M_HOST = 0, M_NO_AVX2, M_NO_OSXSAVE, M_NO_AVX, M_MAXLEAF6, M_NO_SSE2, M_XCR0_NO_YMM, M_XCR0_X87_ONLY, M_SSE2_ONLY, M_LEAF7_EAX0, M_OTHER_VENDOR, M_N };
+enum { M_HOST = 0, M_NO_AVX2, M_NO_OSXSAVE, M_NO_AVX, M_MAXLEAF6, M_NO_SSE2, M_XCR0_NO_YMM, M_XCR0_X87_ONLY, M_SSE2_ONLY, M_LEAF7_EAX0, M_OTHER_VENDOR, M_VENDOR_HYGON, M_VENDOR_ZHAOXIN, M_N };
 static const char *const mname[M_N] = {"host-truth", "no-AVX2-bit", "AVX2-bit-without-OSXSAVE", "AVX2-bit-without-AVX-bit", "max-leaf-6-intel-semantics-adversarial-EBX", "no-SSE2",
                                         "OS-did-not-enable-YMM-state(XCR0=3,single-stepped)", "OS-enabled-x87-state-only(XCR0=1,single-stepped)", "SSE2-only-cpu(K8-class:max-leaf-1,no-SSE3/SSSE3/SSE4/POPCNT/XSAVE/AVX)",
-                                        "AVX2-cpu-whose-leaf7-has-only-sub-leaf-0(EAX=0)", "same-features-other-vendor-string-and-max-leaf-0x20"};
+                                        "AVX2-cpu-whose-leaf7-has-only-sub-leaf-0(EAX=0)", "same-features-other-vendor-string-and-max-leaf-0x20",
+                                        "same-features-vendor-HygonGenuine", "same-features-vendor-Shanghai(Zhaoxin)"};
 
 static volatile int g_model = M_HOST;
 static volatile int g_trapping = 0;
@@ -53,6 +54,12 @@ static void model_cpuid(int model, uint32_t leaf, uint32_t sub, uint32_t o[4])
         break;
     case M_OTHER_VENDOR:       /* feature bits as the host, but another vendor string and a larger maximum basic leaf */
         if (leaf == 0) { o[0] = 0x20; if (o[1] == 0x756e6547) { o[1] = 0x68747541; o[3] = 0x69746e65; o[2] = 0x444d4163; } else { o[1] = 0x756e6547; o[3] = 0x49656e69; o[2] = 0x6c65746e; } }
+        break;
+    case M_VENDOR_HYGON:       /* "HygonGenuine" */
+        if (leaf == 0) { o[1] = 0x6f677948; o[3] = 0x6e65476e; o[2] = 0x656e6975; }
+        break;
+    case M_VENDOR_ZHAOXIN:     /* "  Shanghai  " */
+        if (leaf == 0) { o[1] = 0x68532020; o[3] = 0x68676e61; o[2] = 0x20206961; }
         break;
     case M_SSE2_ONLY:
         if (leaf == 0) o[0] = 1;
@@ -296,6 +303,20 @@ static void one_case(uint64_t idx)
             bad = "handle-vtable-is-not-a-library-table-after-init"; be = -1;
         } else
         be = ret ? (INITS[fi].par ? c->par_backend(&h) : c->ctr_backend(&h)) : -1;
+        if (!bad && ret && (be < 0 || (be == BE_VEC256 && rep == 2 && vex_watch)) && exp_be == BE_VEC256) {
+            /* behavioural identification (needs no internal symbol): the 256-bit back end is the only code in the library that executes
+               AVX-encoded instructions, so a short use of the object is single-stepped and VEX-encoded instructions are counted */
+            uint8_t kb[16] = {1}, buf[600], tw[600]; memset(buf, 3, sizeof(buf)); memset(tw, 5, sizeof(tw));
+            g_step_forbid_vex = 1; g_vex_count = 0;
+            STEP_ON();
+            if (INITS[fi].par) { c->par_set_key(&h, kb, 16, 6, MANTIS_ENCRYPT); c->par_encrypt(buf, buf, tw, 32 * c->bb, &h); }
+            else { c->ctr_set_key(&h, kb, 16, 6); c->ctr_encrypt(buf, buf, 520, &h); }
+            STEP_OFF();
+            g_step_forbid_vex = 0; VH_COUNT("objects_identified_by_the_instructions_they_execute", 1);
+            if (!g_vex_count) bad = "256-bit-back-end-expected-but-the-object-executes-no-AVX-encoded-instruction";
+            else if (be < 0) be = BE_VEC256;
+            g_vex_count = 0;
+        }
         if (!bad && be < 0) { disarm(); printf("{\"type\":\"inconclusive\",\"reason\":\"cannot identify the selected back end from the handle\"}\n"); fflush(stdout); _exit(3); }
         if (!bad && be != exp_be) bad = be > exp_be ? "selected-back-end-above-what-cpu-and-os-support" : "selected-back-end-narrower-than-available";
         if (!bad && first == -2) first = be;
